@@ -1,27 +1,77 @@
 (* Pins for C04: restated statements + assumptions. Generated once by tools/mkpins.py, then committed. *)
-Require Import VT.Tac VT.Vte VT.Screen VT.Perform VT.Parser VT.VteInv VT.VteChunk VT.Chunking.
+Require Import VT.Tac VT.Utf8 VT.Vte VT.Screen VT.Perform VT.Parser VT.Utf8Lemmas VT.VteInv VT.VteChunk VT.Pend VT.Chunking.
+Require Import VT.GridInv VT.ScreenInv.
 Require Import VT.Props.C04.
 Open Scope N_scope.
-Check C04_main : forall p cs1 cs2,
-  pwf (vt p) -> concat cs1 = concat cs2 -> clean (vt p) cs1 -> clean (vt p) cs2 ->
-  process_chunks p cs1 = process_chunks p cs2.
-Print Assumptions C04_main.
+Check C04_parser_ok_unfold : forall p,
+  parser_ok p <->
+  screen_ok (scr p) /\ pwf (vt p) /\ (pend p = [] -> partial (vt p) = []) /\
+  incomplete_tail (pend p) = len (pend p).
+Print Assumptions C04_parser_ok_unfold.
+Check C04_all : forall p cs1 cs2,
+  parser_ok p -> concat cs1 = concat cs2 -> process_chunks p cs1 = process_chunks p cs2.
+Print Assumptions C04_all.
+Check C04_unsplit : forall p cs, parser_ok p -> process_chunks p cs = process p (concat cs).
+Print Assumptions C04_unsplit.
+Check C04_reachable_ok : forall rows cols cap rz, 1 <= rows <= MAXDIM -> 1 <= cols <= MAXDIM ->
+  exists p, parser_new rows cols cap rz = Ok p /\ parser_ok p.
+Print Assumptions C04_reachable_ok.
+Check C04_ok_step : forall p bs, parser_ok p -> exists q, process p bs = Ok q /\ parser_ok q.
+Print Assumptions C04_ok_step.
 Check C04_reachable_pwf : forall rows cols cap rz p, parser_new rows cols cap rz = Ok p -> pwf (vt p).
 Print Assumptions C04_reachable_pwf.
 Check C04_pwf_step : forall p bs q, pwf (vt p) -> process p bs = Ok q -> pwf (vt q).
 Print Assumptions C04_pwf_step.
+Check C04_process_split : forall p bs,
+  delivered p bs ++ held p bs = pend p ++ bs /\
+  len (held p bs) = incomplete_tail (pend p ++ bs) /\ len (held p bs) <= 3 /\
+  (held p bs = [] \/ decode1 (held p bs) = DIncomplete) /\
+  process p bs =
+    (let '(v, acts) := advance (vt p) (delivered p bs) in
+     do '(s, evs) <- perform_all (resizing p) (scr p) acts [];
+     Ok (mkParser v s (log p ++ evs) (resizing p) (held p bs))).
+Print Assumptions C04_process_split.
+Check C04_process_shields_vte : forall p bs, parser_ok p ->
+  k04a (vt p) (delivered p bs) = false /\
+  advance (vt p) (delivered p bs) = advance' (vt p) (delivered p bs) /\
+  forall q, process p bs = Ok q -> (pend q = [] -> partial (vt q) = []).
+Print Assumptions C04_process_shields_vte.
+Check C04_complete_chunk : forall p bs q, parser_ok p -> pend p = [] -> incomplete_tail bs = 0 ->
+  process p bs = Ok q ->
+  delivered p bs = bs /\ pend q = [] /\ partial (vt q) = [].
+Print Assumptions C04_complete_chunk.
 Check C04_vte_app : forall p a b, pwf p ->
   let '(q, x) := advance' p a in let '(r, y) := advance' q b in
   exists z, advance' p (a ++ b) = (r, z) /\ norms z = norms (x ++ y).
 Print Assumptions C04_vte_app.
 Check C04_vte_bug_exact : forall p bs, k04a p bs = false -> advance p bs = advance' p bs.
 Print Assumptions C04_vte_bug_exact.
+Check C04_vte_clean : forall p cs1 cs2,
+  pwf p -> concat cs1 = concat cs2 -> clean p cs1 -> clean p cs2 ->
+  fst (advance_chunks p cs1) = fst (advance_chunks p cs2) /\
+  norms (snd (advance_chunks p cs1)) = norms (snd (advance_chunks p cs2)).
+Print Assumptions C04_vte_clean.
 Check C04_write : forall p bs, write p bs = (do q <- process p bs; Ok (q, len bs)).
 Print Assumptions C04_write.
 Check C04_flush : forall p, flush p = p.
 Print Assumptions C04_flush.
-Check C04_refuted : exists p a b,
+Check C04_vte_refuted : exists p a b,
   pwf p /\ k04a (fst (advance p a)) b = true /\
   snd (advance (fst (advance p a)) b) = [APrint 233; APrint 233] /\
   snd (advance p (a ++ b)) = [APrint 233; APrint 65; APrint 233].
-Print Assumptions C04_refuted.
+Print Assumptions C04_vte_refuted.
+Check C04_vte_no_partial : forall v bs,
+  pwf v -> partial v = [] -> incomplete_tail bs = 0 -> partial (fst (advance v bs)) = [].
+Print Assumptions C04_vte_no_partial.
+Check C04_incomplete_tail_spec : forall bs,
+  incomplete_tail bs <= 3 /\ incomplete_tail bs <= len bs /\
+  (0 < incomplete_tail bs -> decode1 (skipnN (len bs - incomplete_tail bs) bs) = DIncomplete) /\
+  (forall a t, bs = a ++ t -> decode1 t = DIncomplete -> len t <= incomplete_tail bs).
+Print Assumptions C04_incomplete_tail_spec.
+Check C04_incomplete_tail_app : forall bs c,
+  incomplete_tail (bs ++ c) = incomplete_tail (skipnN (len bs - incomplete_tail bs) bs ++ c).
+Print Assumptions C04_incomplete_tail_app.
+Check C04_tail_ascii : forall xs b, b < 128 -> incomplete_tail (xs ++ [b]) = 0.
+Print Assumptions C04_tail_ascii.
+Check C04_tail_char : forall xs t c, decode1 t = DChar c (len t) -> incomplete_tail (xs ++ t) = 0.
+Print Assumptions C04_tail_char.
